@@ -105,6 +105,32 @@ package eval
 //@   assert before "return false" closed: forall x types.EntityUID, y types.EntityUID :: { edge(env, x, y) } (S[x] && edge(env, x, y)) ==> S[y]
 //@   assert before "return false" unreachable: S[entity] && !S[parent] && !reach(env, entity, parent)
 
+// `a in [b1..bn]`: some member of the target set is reachable.
+//@ spec func inTarget(parents mapset.Container[types.EntityUID], x types.EntityUID) bool = parents.Contains#0(x)
+//@ func entityInSet
+//@   props C03
+//@   results r
+//@   ensures sound: r ==> (exists t types.EntityUID :: inTarget(parents, t) && reach(env, entity, t))
+//@   ensures complete: !r ==> (forall t types.EntityUID :: { inTarget(parents, t) } inTarget(parents, t) ==> !reach(env, entity, t))
+//@   loop 1
+//@     invariant !inTarget(parents, entity) && !has(known.m, entity)
+//@     invariant forall x types.EntityUID :: { has(known.m, x) } has(known.m, x) ==> !inTarget(parents, x)
+//@     invariant forall j int :: (0 <= j && j < len(todo)) ==> has(known.m, todo[j])
+//@     invariant seen(known, entity, candidate)
+//@     invariant sound: forall x types.EntityUID :: { seen(known, entity, x) } seen(known, entity, x) ==> reach(env, entity, x)
+//@     invariant expanded: forall x types.EntityUID, y types.EntityUID :: { edge(env, x, y) } (seen(known, entity, x) && x != candidate && !inTodo(todo, x) && edge(env, x, y)) ==> (!inTarget(parents, y) && (leaf(env, y) || seen(known, entity, y)))
+//@   loop 1.1
+//@     invariant !has(known.m, entity)
+//@     invariant forall x types.EntityUID :: { has(known.m, x) } has(known.m, x) ==> !inTarget(parents, x)
+//@     invariant forall j int :: (0 <= j && j < len(todo)) ==> has(known.m, todo[j])
+//@     invariant forall x types.EntityUID :: has(known.m, x) == (has(old(known).m, x) || ($done[x] && !leaf(env, x) && x != entity))
+//@     invariant len(todo) >= len(old(todo)) && (forall j int :: (0 <= j && j < len(old(todo))) ==> todo[j] == old(todo)[j])
+//@     invariant forall j int :: (len(old(todo)) <= j && j < len(todo)) ==> $done[todo[j]]
+//@     invariant forall x types.EntityUID :: (has(known.m, x) && !has(old(known).m, x)) ==> inTodo(todo, x)
+//@   ghost before "return false" S: forall x types.EntityUID :: S[x] == (seen(known, entity, x) || (!inTarget(parents, x) && leaf(env, x)))
+//@   assert before "return false" closed: forall x types.EntityUID, y types.EntityUID :: { edge(env, x, y) } (S[x] && edge(env, x, y)) ==> S[y]
+//@   assert before "return false" unreachable: S[entity] && (forall t types.EntityUID :: { inTarget(parents, t) } inTarget(parents, t) ==> (!S[t] && !reach(env, entity, t)))
+
 // ---- generated by /verif/tools/gen_eval_contracts.py (regular part) ----
 
 // The evaluator interface: Eval is a deterministic function of the node and
@@ -486,6 +512,29 @@ package eval
 //@   results v, err
 //@   ensures !okEntity(n.lhs, env) ==> failEntity(n.lhs, env, err)
 //@   ensures okEntity(n.lhs, env) ==> (err == nil && v == types.Boolean(vEntity(n.lhs, env).Type == n.rhs))
+
+// ---- entity hierarchy: in / is in ----
+//@ func doInEval
+//@   props C01 C03
+//@   pure
+//@   results v, err
+//@   ensures (rhs is types.EntityUID) ==> err == nil && v == types.Boolean(reach(env, lhs, rhs.(types.EntityUID)))
+//@   ensures (!(rhs is types.EntityUID) && !(rhs is types.Set)) ==> err != nil && errIs(err, ErrType)
+
+//@ func (inEval) Eval
+//@   props C01
+//@   results v, err
+//@   ensures !okEntity(n.lhs, env) ==> failEntity(n.lhs, env, err)
+//@   ensures okEntity(n.lhs, env) && evE(n.rhs, env) != nil ==> err == evE(n.rhs, env)
+//@   ensures okEntity(n.lhs, env) && evE(n.rhs, env) == nil ==> v == doInEval#0(env, vEntity(n.lhs, env), evV(n.rhs, env)) && err == doInEval#1(env, vEntity(n.lhs, env), evV(n.rhs, env))
+
+//@ func (isInEval) Eval
+//@   props C01
+//@   results v, err
+//@   ensures !okEntity(n.lhs, env) ==> failEntity(n.lhs, env, err)
+//@   ensures okEntity(n.lhs, env) && vEntity(n.lhs, env).Type != n.is ==> err == nil && v == types.Boolean(false)
+//@   ensures okEntity(n.lhs, env) && vEntity(n.lhs, env).Type == n.is && evE(n.rhs, env) != nil ==> err == evE(n.rhs, env)
+//@   ensures okEntity(n.lhs, env) && vEntity(n.lhs, env).Type == n.is && evE(n.rhs, env) == nil ==> v == doInEval#0(env, vEntity(n.lhs, env), evV(n.rhs, env)) && err == doInEval#1(env, vEntity(n.lhs, env), evV(n.rhs, env))
 
 // ---- variables ----
 //@ func (variableEval) Eval
